@@ -103,6 +103,8 @@ type World struct {
 	mappings                map[uint64]string
 	closers                 map[uint64]func()
 	MaxHandles, MaxMappings int
+	// FDLimit > 0 models the process's descriptor limit (ulimit -n): an open beyond it fails with EMFILE
+	FDLimit int
 	OpensTotal, MmapsTotal  int
 
 	// logs and process stop
@@ -348,6 +350,13 @@ func (w *World) MappingClosed(id uint64) {
 	delete(w.mappings, id)
 	delete(w.closers, id)
 	w.unlock()
+}
+
+// HandleCount is the number of currently open tracked handles.
+func (w *World) HandleCount() int {
+	w.mu.Lock()
+	defer w.mu.Unlock()
+	return len(w.handles)
 }
 
 // OpenHandles returns the relative paths of all currently open tracked handles, sorted.
